@@ -237,6 +237,7 @@ void c13_case(Tape& t, Ctx& ctx) {
   MatrixType eC = sp.getEnergyPartialGradByCoeffs();
   std::vector<ld> enatP; ld enatT;
   nat_scales(C, sp.getTimeSegments(), eC, S, D, enatP, enatT);
+  { std::vector<ld> dn; ld dt_; energy_nat(c, dn, dt_); for (int d = 0; d < D; ++d) enatP[d] += dn[d]; enatT += dt_; }  // energy at rounding level: data-based floor
   ld sumE = 0, sum_t_abs = 0, esum_t_abs = 0;
   VecL sum_times = VecL::Zero(N), esum_times = VecL::Zero(N);
   int bitwise_cols = 0;
@@ -378,6 +379,7 @@ void c14_case(Tape& t, Ctx& ctx) {
   MatrixType eC = sp.getEnergyPartialGradByCoeffs();
   std::vector<ld> natP; ld natT;
   nat_scales(C, c.T, eC, S, D, natP, natT);
+  { std::vector<ld> dn; ld dt_; energy_nat(c, dn, dt_); for (int d = 0; d < D; ++d) natP[d] += dn[d]; natT += dt_; }  // energy at rounding level: data-based floor
   ld natPmax = 0; for (auto x : natP) natPmax = std::max(natPmax, x);
   ld Tmax = *std::max_element(c.T.begin(), c.T.end());
   ctx.label(std::string("order:") + SplineOf<D, S>::name());
